@@ -298,8 +298,10 @@ set_col!(S2, (), u64);
 set_col!(S3, (Vec<u8>, String), (u8, Vec<u8>));
 set_col!(S4, u64, String);
 set_col!(S5, RawKey, Vec<u8>);
-// one type used as BOTH a wide column and a key-of-set column (the column-family cache of both
-// backends is keyed by the type id alone): observed and compared with the model, not judged by the oracle.
+// one type used as BOTH a wide column and a key-of-set column: ONE stable type id, two column
+// families / keyspaces (`*_wide_column_<id>` and `*_key_of_set_<id>`).  An ordinary column for the
+// generator, the model and the oracle.  (Until the repair of F19 both backends cached the family by the
+// type id alone, so whichever kind touched the id first in a session owned it for both kinds.)
 wide_col!(Dual, [u8; 9], u8, Prefixed, [RawRest => 0, RawVal2 => 1]);
 set_col!(Dual, RawKey, RawRest);
 
@@ -597,7 +599,7 @@ fn set_pool_len(g: &mut Gen, ci: usize) -> usize {
 fn gen_case<D: Be>(seed: u64, tier: &str) -> (Vec<Op<D>>, bool) {
     let mut g = Gen { rng: Rng::new(seed), seed, big: false, pools: HashMap::new() };
     g.big = g.rng.chance(1, 12);
-    let with_dual = g.rng.chance(1, 6);
+    let with_dual = g.rng.chance(1, 3);
     // a case concentrates on a few columns so that keys collide and are reused
     let mut wide_cols: Vec<usize> = (0..N_WIDE - 1).collect();
     g.rng.shuffle(&mut wide_cols);
@@ -614,18 +616,26 @@ fn gen_case<D: Be>(seed: u64, tier: &str) -> (Vec<Op<D>>, bool) {
     let (mut open_b, mut open_s): (Vec<u64>, Vec<u64>) = (vec![], vec![]);
     let mut next_h = 1u64;
     let push_reads = |g: &mut Gen, ops: &mut Vec<Op<D>>, wide_cols: &[usize], set_cols: &[usize]| {
-        for &ci in wide_cols {
-            for ki in 0..wide_pool_len(g, ci) {
-                for vi in 0..N_VT[ci] {
-                    let h = wide_handle::<D>(g, ci, vi, Some(ki));
-                    ops.push(Op { line: format!("get {}", h.text), act: Act::Get(h.get, h.wkey) });
+        // which kind is read first varies: after a reopen this decides which kind of a dual-kind type
+        // touches its type id first in the new session
+        let sets_first = g.rng.chance(1, 2);
+        for round in 0..2 {
+            if (round == 0) != sets_first {
+                for &ci in wide_cols {
+                    for ki in 0..wide_pool_len(g, ci) {
+                        for vi in 0..N_VT[ci] {
+                            let h = wide_handle::<D>(g, ci, vi, Some(ki));
+                            ops.push(Op { line: format!("get {}", h.text), act: Act::Get(h.get, h.wkey) });
+                        }
+                    }
                 }
-            }
-        }
-        for &ci in set_cols {
-            for ki in 0..set_pool_len(g, ci) {
-                let h = set_handle::<D>(g, ci, Some(ki));
-                ops.push(Op { line: format!("scan {}", h.text), act: Act::Scan(h.scan, h.skey) });
+            } else {
+                for &ci in set_cols {
+                    for ki in 0..set_pool_len(g, ci) {
+                        let h = set_handle::<D>(g, ci, Some(ki));
+                        ops.push(Op { line: format!("scan {}", h.text), act: Act::Scan(h.scan, h.skey) });
+                    }
+                }
             }
         }
     };
@@ -729,7 +739,6 @@ struct Stats {
     dist: BTreeMap<String, u64>,
     failures: Vec<(String, String, String)>, // sig, desc, case
     samples: Vec<String>,
-    dual_leaks: u64,
 }
 impl Stats {
     fn bump(&mut self, k: &str) { *self.dist.entry(k.to_string()).or_insert(0) += 1; }
@@ -774,13 +783,22 @@ fn run_case<D: Be>(seed: u64, case_ix: u64, tier: &str, out: &mut Out, st: &mut 
     let mut sets: BTreeMap<SKey, BTreeSet<Vec<u8>>> = BTreeMap::new();
     let mut pend_b: HashMap<u64, Vec<Eff>> = HashMap::new();
     let mut pend_s: HashMap<u64, Vec<Eff>> = HashMap::new();
-    let mut dual_dirty = false; // a dual-kind column has been written: its reads are not judged
     let mut seen_prefix_related = false;
-    let mut dual_reported = false;
+    // dual-kind type: which kind touched its type id first (resolved its family) in each session
+    let mut first_touch: Option<char> = None;
+    let mut first_touches: Vec<char> = vec![];
+    let (mut dual_wide_committed, mut dual_set_committed) = (false, false);
 
     let fail = |st: &mut Stats, sig: &str, desc: String, i: usize| {
         if st.failures.len() < 20 {
             st.failures.push((format!("{}:{}", D::TAG, sig), desc, format!("{case_txt} op={i}")));
+        }
+    };
+    // failures of reads of the dual-kind type carry their own signatures
+    let dk = |dual: bool, sig: &str| -> String { if dual { format!("dual-kind-{sig}") } else { sig.to_string() } };
+    let touch = |first_touch: &mut Option<char>, e: &Eff| {
+        if e.dual() && first_touch.is_none() {
+            *first_touch = Some(if matches!(e, Eff::Put(..) | Eff::Del(..)) { 'w' } else { 's' });
         }
     };
 
@@ -798,6 +816,7 @@ fn run_case<D: Be>(seed: u64, case_ix: u64, tier: &str, out: &mut Out, st: &mut 
                 sbufs.clear();
                 pend_b.clear();
                 pend_s.clear();
+                if let Some(c) = first_touch.take() { first_touches.push(c); }
                 if let Some(d) = db.take() {
                     if !close_db(d) { st.bump(&format!("backend_close_hung_case_abandoned_{}", D::TAG)); return; } // close first
                 }
@@ -807,6 +826,7 @@ fn run_case<D: Be>(seed: u64, case_ix: u64, tier: &str, out: &mut Out, st: &mut 
             Act::Raw => {
                 batches.clear();
                 sbufs.clear();
+                if let Some(c) = first_touch.take() { first_touches.push(c); }
                 if let Some(d) = db.take() {
                     if !close_db(d) { st.bump(&format!("backend_close_hung_case_abandoned_{}", D::TAG)); return; }
                 }
@@ -829,6 +849,7 @@ fn run_case<D: Be>(seed: u64, case_ix: u64, tier: &str, out: &mut Out, st: &mut 
             Act::BW(h, f, eff) => {
                 let b = batches.get_mut(h).unwrap();
                 let ok = catch_unwind(AssertUnwindSafe(|| f(b))).is_ok();
+                touch(&mut first_touch, eff);
                 match eff {
                     Eff::Put(k, _) | Eff::Del(k) => key_class(st, &k.2),
                     Eff::Ins(k, _) | Eff::Rem(k, _) => key_class(st, &k.1),
@@ -848,6 +869,8 @@ fn run_case<D: Be>(seed: u64, case_ix: u64, tier: &str, out: &mut Out, st: &mut 
             Act::SW(s, f, eff) => {
                 let b = sbufs.get_mut(s).unwrap();
                 let ok = catch_unwind(AssertUnwindSafe(|| f(b))).is_ok();
+                // Fjall resolves the keyspace when the operation enters the buffer, RocksDB at consume
+                if D::TAG == "f" { touch(&mut first_touch, eff); }
                 if ok {
                     pend_s.get_mut(s).unwrap().push(eff.clone());
                     "ok".into()
@@ -862,6 +885,7 @@ fn run_case<D: Be>(seed: u64, case_ix: u64, tier: &str, out: &mut Out, st: &mut 
                 let b = batches.get_mut(h).unwrap();
                 let ok = catch_unwind(AssertUnwindSafe(|| b.consume_serialization_buffer(buf))).is_ok();
                 let cut = effs.iter().position(|e| D::TAG == "f" && e.oversize());
+                for e in &effs { touch(&mut first_touch, e); }
                 if ok {
                     pend_b.get_mut(h).unwrap().extend(effs);
                     "ok".into()
@@ -883,7 +907,9 @@ fn run_case<D: Be>(seed: u64, case_ix: u64, tier: &str, out: &mut Out, st: &mut 
                 if ok {
                     st.bump_n("committed_ops", effs.len() as u64);
                     for e in effs {
-                        if e.dual() { dual_dirty = true; }
+                        if e.dual() {
+                            if matches!(e, Eff::Put(..) | Eff::Del(..)) { dual_wide_committed = true; } else { dual_set_committed = true; }
+                        }
                         match e {
                             Eff::Put(k, v) => { wide.insert(k, v); }
                             Eff::Del(k) => { wide.remove(&k); }
@@ -906,25 +932,22 @@ fn run_case<D: Be>(seed: u64, case_ix: u64, tier: &str, out: &mut Out, st: &mut 
             Act::Get(f, k) => {
                 let d = db.as_ref().unwrap();
                 let r = catch_unwind(AssertUnwindSafe(|| f(d)));
-                let judged = !(dual_dirty && k.0 == DUAL_W);
+                let dual = k.0 == DUAL_W;
+                if dual && first_touch.is_none() { first_touch = Some('w'); }
                 let pending_same: usize = pend_b.values().chain(pend_s.values()).flatten()
                     .filter(|e| matches!(e, Eff::Put(x, _) | Eff::Del(x) if x == k)).count();
                 if pending_same > 0 { st.bump("reads_with_pending_uncommitted_write_to_same_key"); }
                 match r {
                     Ok(got) => {
                         let want = wide.get(k).cloned();
-                        if !judged && got != want && !dual_reported {
-                            dual_reported = true;
-                            st.dual_leaks += 1;
-                            fail(st, "dual-kind-column-interference", format!("type used as wide AND key-of-set column: {} returned {:?}, reference {:?}", &op.line[..op.line.len().min(160)], got.as_deref().map(fmt), want.as_deref().map(fmt)), i);
-                        }
-                        if judged && got != want {
+                        if dual { st.bump("dual_kind_type_point_reads_judged"); }
+                        if got != want {
                             let sig = match (&got, &want) {
                                 (None, Some(_)) => "get-lost",
                                 (Some(_), None) => "get-phantom",
                                 _ => "get-wrong-value",
                             };
-                            fail(st, sig, format!("{} returned {:?}, reference {:?}", &op.line[..op.line.len().min(160)], got.as_deref().map(fmt), want.as_deref().map(fmt)), i);
+                            fail(st, &dk(dual, sig), format!("{} returned {:?}, reference {:?}", &op.line[..op.line.len().min(160)], got.as_deref().map(fmt), want.as_deref().map(fmt)), i);
                         }
                         match got {
                             Some(v) => {
@@ -939,7 +962,7 @@ fn run_case<D: Be>(seed: u64, case_ix: u64, tier: &str, out: &mut Out, st: &mut 
                     }
                     Err(_) => {
                         if D::TAG == "f" && k.2.len() > 60_000 { st.bump("fjall_oversize_key_panics"); }
-                        else if judged { fail(st, "get-panic", format!("{} panicked", &op.line[..op.line.len().min(160)]), i); }
+                        else { fail(st, &dk(dual, "get-panic"), format!("{} panicked", &op.line[..op.line.len().min(160)]), i); }
                         "panic".into()
                     }
                 }
@@ -947,7 +970,8 @@ fn run_case<D: Be>(seed: u64, case_ix: u64, tier: &str, out: &mut Out, st: &mut 
             Act::Scan(f, k) => {
                 let d = db.as_ref().unwrap();
                 let r = catch_unwind(AssertUnwindSafe(|| f(d)));
-                let judged = !(dual_dirty && k.0 == DUAL_S);
+                let dual = k.0 == DUAL_S;
+                if dual && first_touch.is_none() { first_touch = Some('s'); }
                 let want: Vec<Vec<u8>> = sets.get(k).map(|s| s.iter().cloned().collect()).unwrap_or_default();
                 // prefix-related sibling keys with members in the same column?
                 if sets.iter().any(|(x, m)| x.0 == k.0 && x.1 != k.1 && !m.is_empty() && (x.1.starts_with(&k.1) || k.1.starts_with(&x.1))) {
@@ -958,23 +982,16 @@ fn run_case<D: Be>(seed: u64, case_ix: u64, tier: &str, out: &mut Out, st: &mut 
                     Ok(got) => {
                         let mut sorted = got.clone();
                         sorted.sort();
-                        if judged && sorted != want {
+                        if dual { st.bump("dual_kind_type_member_scans_judged"); }
+                        if sorted != want {
                             let gs: BTreeSet<_> = got.iter().cloned().collect();
                             let ws: BTreeSet<_> = want.iter().cloned().collect();
                             let sig = if gs.len() != got.len() { "scan-duplicate" }
                                 else if gs.is_subset(&ws) { "scan-missing-member" }
                                 else if ws.is_subset(&gs) { "scan-foreign-member" }
                                 else { "scan-wrong-members" };
-                            fail(st, sig, format!("{} returned [{}], reference [{}]", &op.line[..op.line.len().min(160)],
+                            fail(st, &dk(dual, sig), format!("{} returned [{}], reference [{}]", &op.line[..op.line.len().min(160)],
                                 got.iter().map(|e| fmt(e)).collect::<Vec<_>>().join(" "), want.iter().map(|e| fmt(e)).collect::<Vec<_>>().join(" ")), i);
-                        }
-                        if !judged && sorted != want {
-                            st.dual_leaks += 1;
-                            if !dual_reported {
-                                dual_reported = true;
-                                fail(st, "dual-kind-column-interference", format!("type used as wide AND key-of-set column: {} returned [{}], reference [{}]", &op.line[..op.line.len().min(160)],
-                                    got.iter().map(|e| fmt(e)).collect::<Vec<_>>().join(" "), want.iter().map(|e| fmt(e)).collect::<Vec<_>>().join(" ")), i);
-                            }
                         }
                         if !got.is_empty() {
                             st.bump("scan_nonempty");
@@ -987,14 +1004,7 @@ fn run_case<D: Be>(seed: u64, case_ix: u64, tier: &str, out: &mut Out, st: &mut 
                     }
                     Err(_) => {
                         if D::TAG == "f" && k.1.len() > 60_000 { st.bump("fjall_oversize_key_panics"); }
-                        else if judged { fail(st, "scan-panic", format!("{} panicked", &op.line[..op.line.len().min(160)]), i); }
-                        else {
-                            st.dual_leaks += 1;
-                            if !dual_reported {
-                                dual_reported = true;
-                                fail(st, "dual-kind-column-interference", format!("type used as wide AND key-of-set column: {} panicked", &op.line[..op.line.len().min(160)]), i);
-                            }
-                        }
+                        else { fail(st, &dk(dual, "scan-panic"), format!("{} panicked", &op.line[..op.line.len().min(160)]), i); }
                         "panic".into()
                     }
                 }
@@ -1006,6 +1016,12 @@ fn run_case<D: Be>(seed: u64, case_ix: u64, tier: &str, out: &mut Out, st: &mut 
         out.line(&op.line, &res);
     }
     if seen_prefix_related { st.bump("cases_with_prefix_related_set_keys"); }
+    if let Some(c) = first_touch.take() { first_touches.push(c); }
+    if with_dual {
+        if dual_wide_committed && dual_set_committed { st.bump("cases_dual_kind_type_committed_under_both_kinds"); }
+        if first_touches.contains(&'w') && first_touches.contains(&'s') { st.bump("cases_dual_kind_type_first_touched_by_different_kinds_across_sessions"); }
+        for c in &first_touches { st.bump(if *c == 'w' { "dual_kind_sessions_first_touched_as_wide" } else { "dual_kind_sessions_first_touched_as_set" }); }
+    }
     drop(batches);
     drop(sbufs);
     if let Some(d) = db.take() {
@@ -1122,7 +1138,6 @@ fn main() {
             st.failures.push(("f:atomic-probe-panic".into(), "atomicity probe panicked".into(), format!("kv seed={seed} atomic-probe backend=f")));
         }
     }
-    st.bump_n("dual_kind_column_interference_observed", st.dual_leaks);
     let dist = st.dist.iter().map(|(k, v)| format!("{}:{}", jstr(k), v)).collect::<Vec<_>>().join(",");
     let fails = st.failures.iter()
         .map(|(s, d, c)| format!("{{\"sig\":{},\"desc\":{},\"case\":{}}}", jstr(s), jstr(d), jstr(c)))
